@@ -46,7 +46,7 @@ def run_tlc(name, moddir, module, cfg, env=None, workers=None, xmx="6g", timeout
     m = re.search(r"depth of the complete state graph search is (\d+)", out)
     if m:
         r["depth"] = int(m.group(1))
-    r["ok"] = "Model checking completed. No error has been found." in out
+    r["ok"] = "Model checking completed. No error has been found." in out or ("Simulation using seed" in out and "Error" not in out and rc == 0)
     return r
 
 
